@@ -1337,6 +1337,47 @@ func ConfigGrid(args []string) {
 				}
 			}
 		}
+		// several receivers join at the same moment (a link posted to a group): each gets the credentials minted for it
+		if len(open) == 2 && r.Turn != "off" {
+			type burstRes struct {
+				pid string
+				tc  *protocol.TurnCredentials
+			}
+			const nb = 12
+			resCh := make(chan burstRes, nb)
+			for k := 0; k < nb; k++ {
+				go func(k int) {
+					pid := fmt.Sprintf("%s-burst%d", peer, k)
+					out := burstRes{pid: pid}
+					defer func() { resCh <- out }()
+					u, e := app.VerifBuildWebSocketURL(srv.url, code, pid, "receiver", 0)
+					if e != nil {
+						return
+					}
+					c, _, derr := dialWS(u)
+					if derr != nil {
+						return // (a receiver limit of this configuration: not this check's subject)
+					}
+					defer c.conn.Close()
+					for deadline := time.Now().Add(5 * time.Second); time.Now().Before(deadline) && out.tc == nil; time.Sleep(5 * time.Millisecond) {
+						for _, e := range c.snapshot() {
+							if e.Type == protocol.TypeTurnCredentials {
+								var tc protocol.TurnCredentials
+								if e.DecodePayload(&tc) == nil {
+									out.tc = &tc
+								}
+							}
+						}
+					}
+				}(k)
+			}
+			for k := 0; k < nb; k++ {
+				b := <-resCh
+				if b.tc != nil && len(b.tc.Servers) > 0 {
+					checkTurn(bad, b.tc.Servers[0], turnURLs[r.Turn], b.pid, secret)
+				}
+			}
+		}
 		// another host creates a session on the same server: the first session must go on admitting
 		if len(open) == 2 {
 			if _, _, _, e2 := clienthttp.CreateSession(ctx, srv.url, hostMax); e2 == nil {
